@@ -95,6 +95,9 @@ func errLosses(p *Prog, f *ssa.Function, c *ssa.Call, e ssa.Value) []errLoss {
 				if isE(x) && isNilConst(y) && ((cf.Op == token.EQL && cf.Want) || (cf.Op == token.NEQ && !cf.Want)) {
 					return true
 				}
+				if errflowNoClassification {
+					continue
+				}
 				// e == sentinel: classified
 				if isE(x) && globalLoad(y) != nil && ((cf.Op == token.EQL && cf.Want) || (cf.Op == token.NEQ && !cf.Want)) {
 					return true
@@ -102,6 +105,9 @@ func errLosses(p *Prog, f *ssa.Function, c *ssa.Call, e ssa.Value) []errLoss {
 				if isE(y) && globalLoad(x) != nil && ((cf.Op == token.EQL && cf.Want) || (cf.Op == token.NEQ && !cf.Want)) {
 					return true
 				}
+			}
+			if errflowNoClassification {
+				continue
 			}
 			// errors.Is(e, X) is true: classified
 			if x, _, ok := errorsIsCall(cf.Raw); ok && cf.Want && isE(x) {
@@ -250,6 +256,10 @@ func checkErrorPreservation(p *Prog, res *Result, rule string, inScope func(*ssa
 // errflowAcceptFailure: rules that only ask "is a failure turned into success?" set this while they run: a path that
 // returns some other, provably non-nil error is then not a loss.
 var errflowAcceptFailure bool
+
+// errflowNoClassification: for rules where no class of the error is an acceptable reason to go on as if nothing had
+// happened: only the nil edge discharges the error.
+var errflowNoClassification bool
 
 // definitelyNonNilError: the value is built by an error constructor (or is a storage sentinel), never nil.
 func definitelyNonNilError(v ssa.Value) bool {
